@@ -17,6 +17,7 @@
 
 import abc
 import logging
+import threading
 import uuid
 from typing import Dict, List, TYPE_CHECKING
 
@@ -58,6 +59,7 @@ class TracepointConfigService:
         self._last_update = 0
         self._task_handler = None
         self._listeners: List[ConfigUpdateListener] = []
+        self._update_lock = threading.Lock()
 
     def update_no_change(self, ts):
         """
@@ -115,11 +117,17 @@ class TracepointConfigService:
         :param new_config: the new config
         """
         listeners_copy = self._listeners.copy()
-        for listeners in listeners_copy:
-            try:
-                listeners.config_change(ts, old_hash, current_hash, old_config, new_config + self._custom)
-            except Exception:
-                logging.exception("Error updating listener %s", listeners)
+        # updates are processed in the background and can complete out of order. So we do not hand out the config that
+        # was captured when this update was submitted, but the latest one, and we do not let an older update overtake
+        # a newer one between reading the config and telling the listeners.
+        with self._update_lock:
+            current_hash = self._current_hash
+            new_config = self._tracepoint_config
+            for listeners in listeners_copy:
+                try:
+                    listeners.config_change(ts, old_hash, current_hash, old_config, new_config + self._custom)
+                except Exception:
+                    logging.exception("Error updating listener %s", listeners)
 
     def add_listener(self, listener: ConfigUpdateListener):
         """
